@@ -37,11 +37,17 @@ ASSUME = ['TLC results are exhaustive only within the stated constants (chunks, 
           'transaction, persistent, zodbpickle trusted as installed']
 
 
-def consts(opts, chunks, ops, backups, empty_incr, by_listing, noop_rewrites=False):
-    return {'MaxChunks': chunks, 'MaxOps': ops, 'MaxBackups': backups,
-            'Opts': '{' + ', '.join(str(o) for o in sorted(opts)) + '}',
-            'QuickTrustsEmptyRange': 'TRUE' if empty_incr else 'FALSE', 'ChainByListing': 'TRUE' if by_listing else 'FALSE',
-            'NoopPackRewrites': 'TRUE' if noop_rewrites else 'FALSE'}
+DEVIATIONS = ('QuickTrustsEmptyRange', 'NoopPackRewrites', 'ChainByListing', 'VerifyNewestOnly', 'SameStampAllowed',
+              'ShortDateStrict')
+
+
+def consts(opts, chunks, ops, backups, dev=(), same=1):
+    """dev: the deviation constants set to TRUE (the behaviour of the code as it is / was)"""
+    c = {'MaxChunks': chunks, 'MaxOps': ops, 'MaxBackups': backups, 'MaxSame': same,
+         'Opts': '{' + ', '.join(str(o) for o in sorted(opts)) + '}'}
+    for d in DEVIATIONS:
+        c[d] = 'TRUE' if d in dev else 'FALSE'
+    return c
 
 
 def cfg(ctx, name, c, invariants=(), next_='Next'):
@@ -83,9 +89,10 @@ def report(ctx, r, origin):
 
 
 def replay_trace(ctx, trace, name, i=0):
-    """TLC's counterexample on the real code, to the end whatever happens on the way (lenient)."""
+    """TLC's counterexample on the real code, to the end whatever happens on the way (lenient), with every variant
+    of every recovery (plain, -w, truncated date: the clock ticks in days so that a date alone names a run)."""
     wd = os.path.join(ctx.scratch, 'cx-%s' % name)
-    r = rd.replay_path((trace_steps(trace), wd, dict(job_opts(ctx, i), lenient=True)))
+    r = rd.replay_path((trace_steps(trace), wd, dict(job_opts(ctx, i), lenient=True, all_variants=True, time_step=86400)))
     r['opts'].pop('lenient')
     return r
 
@@ -170,52 +177,71 @@ def run(ctx):
     q = ctx.quick
     cov = new_cov()
     # 1. the design (deviations cleared) satisfies the property for every option combination
-    ctx.model_check(SPEC, cfg(ctx, 'design', consts(ALL_OPTS, 3, 6 if q else 7, 3, False, False), INVARIANTS),
+    ctx.model_check(SPEC, cfg(ctx, 'design', consts(ALL_OPTS, 3, 5 if q else 6, 3), INVARIANTS),
                     name='design-16-options', timeout=900)
     if not q:
-        ctx.model_check(SPEC, cfg(ctx, 'design-deep', consts((0, 2, 5, 10, 15), 4, 9, 4, False, False), INVARIANTS),
+        ctx.model_check(SPEC, cfg(ctx, 'design-deep', consts((0, 2, 5, 10, 15), 4, 8, 4), INVARIANTS),
                         name='design-5-options-4-chunks', timeout=1500)
-    # 2. the code as it is: TLC exhibits the violations; the counterexamples decide which setting matches the tree
+    # 2. one deviation at a time set to the behaviour of the code: TLC exhibits the violated clause; the
+    #    counterexample replayed on the tree decides which setting matches it
     small = (0, 2, 9)
-    r14 = ctx.model_check(SPEC, cfg(ctx, 'f14', consts(small, 3, 7, 3, True, False), ['RecoverExact'], next_='NextNoDamage'),
-                          name='as-code-empty-incremental', expect_violation='RecoverExact', timeout=600, workers=1, extra=('-fp', '18'))
-    r18v = ctx.model_check(SPEC, cfg(ctx, 'f18v', consts(small, 3, 7, 3, False, True), ['VerifyDetects'], next_='NextMissingNoTail'),
-                           name='as-code-chain-by-listing-verify', expect_violation='VerifyDetects', timeout=600, workers=1, extra=('-fp', '18'))
-    r18r = ctx.model_check(SPEC, cfg(ctx, 'f18r', consts(small, 3, 7, 3, False, True), ['RecoverExact'], next_='NextMissingNoTail'),
-                           name='as-code-chain-by-listing-recover', expect_violation='RecoverExact', timeout=600, workers=1, extra=('-fp', '18'))
-    # quick mode is sound only because a pack that frees nothing leaves the data file alone: were it rewritten (same
-    # size, packed flags set) TLC shows the recovery that is no longer the data file
-    rnp = ctx.model_check(SPEC, cfg(ctx, 'noop-pack', consts(small, 3, 7, 3, False, False, True), ['RecoverExact'], next_='NextNoDamage'),
-                          name='noop-pack-rewrites-file', expect_violation='RecoverExact', timeout=600, workers=1, extra=('-fp', '18'))
-    cx = {}
-    for i, (name, r, clause) in enumerate((('empty-incremental', r14, 'recover'), ('listing-verify', r18v, 'verify'),
-                                           ('listing-recover', r18r, 'recover'), ('noop-pack-rewrites', rnp, 'recover'))):
+    plain = lambda g: g.get('clause') == 'recover' and g.get('damage') == 'none' and g.get('date') != 'short'   # noqa: E731
+    CX = (  # name, deviations set, invariant violated, sub-relation, what the code must show, constant decided
+        ('empty-incremental', ('QuickTrustsEmptyRange',), 'RecoverExact', 'NextSteadyClock2',
+         lambda g: plain(g) and g.get('last_run', '').endswith('quick-empty-range'), 'QuickTrustsEmptyRange'),
+        ('noop-pack-rewrites', ('NoopPackRewrites',), 'RecoverExact', 'NextSteadyClock',
+         lambda g: plain(g) and not g.get('shared_stamp'), 'NoopPackRewrites'),
+        ('listing-verify', ('ChainByListing', 'VerifyNewestOnly'), 'VerifyDetects', 'NextMissingNoTail',
+         lambda g: g.get('clause') == 'verify' and g.get('damage') == 'missing' and g.get('target') == 'full', 'ChainByListing'),
+        ('listing-recover', ('ChainByListing',), 'RecoverExact', 'NextMissingNoTail',
+         lambda g: g.get('clause') == 'recover' and g.get('damage') == 'missing' and g.get('date') != 'short', 'ChainByListing'),
+        ('older-generation-verify', ('VerifyNewestOnly',), 'VerifyDetects', 'NextDataDamageNoTail',
+         lambda g: g.get('clause') == 'verify' and str(g.get('target', '')).startswith('older-'), 'VerifyNewestOnly'),
+        ('same-second', ('SameStampAllowed',), 'RecoverExact', 'NextNoDamage',
+         lambda g: g.get('damage') == 'none' and g.get('shared_stamp') and g.get('date') != 'short', 'SameStampAllowed'),
+        ('short-date', ('ShortDateStrict',), 'RecoverExact', 'NextSteadyClock',
+         lambda g: g.get('clause') == 'recover' and g.get('date') == 'short', 'ShortDateStrict'),
+    )
+    dev = set()
+    for i, (name, d, inv, nxt, shows, const) in enumerate(CX):
+        r = ctx.model_check(SPEC, cfg(ctx, 'cx-' + name, consts(small, 3, 7, 3, d), [inv], next_=nxt),
+                            name='as-code-' + name, expect_violation=inv, timeout=600, workers=1, extra=('-fp', '18'))
         res = replay_trace(ctx, r.trace, name, i)
-        cx[name] = exhibits(res, clause)
-        # divergences from the model on the way are judged by the graph replay, under the constants chosen here
-        res['violations'] = [v for v in res['violations'] if v['kind'] == 'property']
-        res['violation_counts'] = {k: n for k, n in res['violation_counts'].items() if k.startswith('["property"')}
-        cov['counterexamples'][name] = {'trace': res['sig'], 'exhibited_by_code': exhibits(res, clause),
+        shown = any(v['kind'] == 'property' and shows(v['sig']) for v in res['violations'])
+        if shown:
+            dev.add(const)
+        # only what this counterexample is about is reported from here; everything else (other findings met on the way,
+        # divergences from the model) is judged by the graph replay, under the constants chosen here
+        res['violations'] = [v for v in res['violations'] if v['kind'] == 'property' and shows(v['sig'])]
+        res['violation_counts'] = {}
+        cov['counterexamples'][name] = {'trace': res['sig'], 'exhibited_by_code': shown,
                                         'outcome': res['violations'][0]['text'] if res['violations'] else 'property holds on this trace'}
         judge(ctx, [res], 'TLC counterexample ' + name, cov)
-    empty_incr = cx['empty-incremental']
-    by_listing = cx['listing-verify'] or cx['listing-recover']
-    noop = cx['noop-pack-rewrites']
-    cov['constants_matching_tree'] = {'QuickTrustsEmptyRange': empty_incr, 'ChainByListing': by_listing, 'NoopPackRewrites': noop}
+    noop = 'NoopPackRewrites' in dev
+    cov['constants_matching_tree'] = {d: d in dev for d in DEVIATIONS}
     # 3. conformance + property on the whole graph of the model of the code as it is
     if q:
         opts = option_sets(ctx.seed)
-        graph_replay(ctx, 'quick', consts(opts, 3, 6, 3, empty_incr, by_listing, noop), cov)
+        graph_replay(ctx, 'quick', consts(opts, 3, 6, 3, dev), cov)
     else:
-        graph_replay(ctx, 'all-options', consts(ALL_OPTS, 3, 7, 3, empty_incr, by_listing, noop), cov)
+        graph_replay(ctx, 'all-options', consts(ALL_OPTS, 3, 6, 3, dev), cov)
         for j in range(2):
             opts = option_sets(ctx.seed + 1 + j)
-            graph_replay(ctx, 'deep-%d' % j, consts(opts, 4, 8, 4, empty_incr, by_listing, noop), cov, keep=0.25, primary=False)
+            graph_replay(ctx, 'deep-%d' % j, consts(opts, 4, 8, 4, dev, same=2), cov, keep=0.15, primary=False)
     need = ['Commit', 'BeginTail', 'AbortTail', 'Pack', 'Backup', 'Damage:missing', 'Damage:trunc', 'Damage:alt']
     lacking = [a for a in need if not cov['actions'].get(a)]
     cov['packs_before_backup'] = {k: v for k, v in cov['decisions'].items() if k.startswith('pack-')}
     cov['decisions'] = {k: v for k, v in cov['decisions'].items() if not k.startswith('pack-')}
+    cov['same_second_runs'] = {k: v for k, v in cov['decisions'].items() if k.startswith('same-second>')}
+    cov['damage_targets'] = {k: v for k, v in cov['decisions'].items() if k.startswith('damage-')}
+    cov['decisions'] = {k: v for k, v in cov['decisions'].items() if not k.startswith(('same-second>', 'damage-'))}
     decs = {d.split('/')[0] for d in cov['decisions']}
+    # a second run within one clock second (writing a file / refused), damage to every kind of file of the
+    # repository (newest and older generation, .index), recoveries with a truncated date and with -w after damage
+    lacking += [k for k in ('same-second>full', 'same-second>incr', 'same-second>refused') if not cov['same_second_runs'].get(k)]
+    lacking += [k for k in ('damage-full', 'damage-incr', 'damage-older-full', 'damage-older-incr', 'damage-index')
+                if not cov['damage_targets'].get(k)]
+    lacking += [k for k in ('short_date', 'recover_w_damaged') if not cov['calls'].get(k)]
     # interleavings of packs and backups that must have been replayed: a pack that freed something / nothing (the
     # latter: 'nothing-freed', or 'rewritten' when the tree under test rewrites the file) followed by a quick run and
     # by a comparing run, and a pack that freed nothing after an incremental followed by a quick run
@@ -251,6 +277,8 @@ def run(ctx):
         'actions': cov['actions'],
         'decisions': cov['decisions'],
         'packs_before_backup': cov['packs_before_backup'],
+        'same_second_runs': cov['same_second_runs'],
+        'damage_targets': cov['damage_targets'],
         'graphs': cov['graphs'],
         'tlc_counterexamples': cov['counterexamples'],
         'violations_by_signature': cov['violation_counts'],
